@@ -99,6 +99,22 @@ def run(prop, tier, seed):
         sc["tree"]["p.diff"] = ("R", 0o644, text)
         sc["single_fmt"] = "unified" if fm == "unified" else None
         combined.append(sc)
+    for _ in range(nl2 // 4):
+        # git sections and sections in the other formats in one stream, in any order
+        paths_ = rng.sample(scen.PATHS, 3)
+        secs_ = []
+        for p_ in paths_:
+            fm = rng.choice(["git", "context", "normal", "unified", "git"])
+            if fm == "normal" and " " in p_:
+                fm = "context"
+            secs_.append(scen.section(rng, p_, kind="change", fmt=fm, nonl=False))
+        sc = scen.base_scenario(rng, secs_, opts={})
+        text = b""
+        for x in secs_:
+            text += x["text"] + (streams.filler_after(rng, x) if x["fmt"] != "normal" else b"")
+        sc["tree"]["p.diff"] = ("R", 0o644, text)
+        sc["single_fmt"] = None
+        combined.append(sc)
     for _ in range(nl2 // 5):
         sc = scen.dir_stream_scenario(rng)
         sc["single_fmt"] = None
